@@ -138,7 +138,9 @@ def gen_plan(ch, deep=False):
             body = ('req=%d&pad=%s' % (k, 'x' * ch.draw(6, 'pad'))) if form else \
                 json.dumps({'req': k, 'pad': 'x' * ch.draw(6, 'pad')})
             reqs.append({'route': mi, 'path': path_for(tpl, k), 'method': 'POST', 'tag': 'tag%d' % k,
-                         'ctype': 'application/x-www-form-urlencoded' if form else 'application/json',
+                         'ctype': 'application/x-www-form-urlencoded' if form else
+                         ['application/json', 'application/json', '*/*; q=0.8', 'text/plain',
+                          'application/json; charset=utf-8'][ch.draw(5, 'json_ctype')],
                          'accept': ACCEPTS[0], 'query': 'q=%d&who=r%d' % (k, k), 'body': body})
         return {'routes': routes, 'n_mw': n_mw, 'reqs': reqs,
                 'independent_mw': bool(ch.draw(2, 'independent_mw')),
